@@ -79,6 +79,7 @@ type Exec struct {
 	inputObs   []obsTerm
 	stmtHits   map[int]int
 	boxed      map[types.Object]bool
+	orderOnly  bool
 }
 
 type emitSite struct {
@@ -398,6 +399,12 @@ func (x *Exec) assign(n *ast.AssignStmt) {
 			}
 			k := x.convertTo(x.expr(env, r.Index), mt.Key())
 			vals = []Val{x.expr(env, r), {x.mapHas(m, k), tBool}}
+		case *ast.UnaryExpr:
+			if r.Op != token.ARROW {
+				x.fail(n.Pos(), "UNSUPPORTED multi-value assignment")
+			}
+			v, ok := x.recv(env, r)
+			vals = []Val{v, ok}
 		case *ast.TypeAssertExpr:
 			v := x.expr(env, r.X)
 			t := x.resolveType(env, r.Type)
@@ -696,12 +703,15 @@ type loopSpec struct {
 
 func (x *Exec) loopClauses(ord int, kind string) []*Clause {
 	fr := x.fr()
-	if fr.con == nil {
+	if fr.con == nil || x.orderOnly && kind != "invariant" {
 		return nil
 	}
 	var out []*Clause
 	for _, cl := range fr.con.Clauses {
 		if cl.Kind == "loop:"+kind && cl.Loop == ord {
+			if len(cl.Props) > 0 && x.v.curProp != "" && !hasProp(cl.Props, x.v.curProp) && (kind == "invariant" || kind == "after") {
+				continue // clause belongs to another property: neither assumed nor checked in this run
+			}
 			out = append(out, cl)
 		}
 	}
@@ -1214,6 +1224,9 @@ func (x *Exec) collectMods(unit *FuncUnit, n ast.Node, ms *modSet, seen map[*typ
 			if s.Op == token.AND {
 				ms.allocs = true
 			}
+			if s.Op == token.ARROW {
+				ms.ghosts["fetched"] = true
+			}
 		case *ast.CallExpr:
 			x.callMods(unit, s, ms, seen)
 		case *ast.FuncLit:
@@ -1332,6 +1345,7 @@ func (x *Exec) callMods(unit *FuncUnit, call *ast.CallExpr, ms *modSet, seen map
 }
 
 type modItem struct {
+	ghost  string
 	deref  ast.Expr // *p : everything p points to
 	whole  bool
 	field  *types.Var
@@ -1364,6 +1378,16 @@ func (x *Exec) parseModifies(cu *FuncUnit, con *Contract) []modItem {
 			}
 			switch t := e.(type) {
 			case *ast.Ident:
+				isGhost := false
+				for _, g := range x.v.cs.Ghosts {
+					if g.Pkg == cu.Pkg.PkgPath && g.Name == t.Name {
+						isGhost = true
+					}
+				}
+				if isGhost {
+					items = append(items, modItem{ghost: t.Name})
+					continue
+				}
 				_, o := cu.Pkg.Types.Scope().LookupParent(t.Name, token.NoPos)
 				gv, ok := o.(*types.Var)
 				if !ok {
@@ -1443,6 +1467,8 @@ func (x *Exec) contractMods(cu *FuncUnit, con *Contract, ms *modSet) {
 			ms.vars[it.global] = true
 		case it.field != nil:
 			ms.fields[it.field] = true
+		case it.ghost != "":
+			ms.ghosts[it.ghost] = true
 		case it.deref != nil:
 			for _, f := range x.derefFields(cu, it.deref) {
 				ms.fields[f] = true
@@ -1594,6 +1620,15 @@ func (x *Exec) havocMods(ms *modSet, st *State) {
 }
 
 func (x *Exec) havocVar(st *State, vv *types.Var) {
+	if x.boxed[vv] {
+		// address-taken local: its storage is a heap object; havoc the contents, keep the reference
+		ref := st.vars[vv].S
+		sv := x.st
+		x.st = st
+		x.storeCell(ref, Val{x.ctx.Fresh(vv.Name(), x.ctx.Sort(vv.Type())), vv.Type()}, vv.Type())
+		x.st = sv
+		return
+	}
 	c := x.ctx.Fresh(vv.Name(), x.ctx.Sort(vv.Type()))
 	v := Val{c, vv.Type()}
 	st.vars[vv] = v
